@@ -53,7 +53,7 @@ class C18(Check):
             cfgs.append(Config('lambda_value_N%d_W%d' % (N, W), self.lam_value, {'N': N, 'W': W}, nonlinear=True))
             for tag in SCALAR_TAGS:
                 cfgs.append(Config('lambda_type_%s_N%d_W%d' % (tag, N, W), self.lam_type, {'N': N, 'W': W, 'tag': tag},
-                                   nonlinear=True))
+                                   nonlinear=True, witness_every=1, robust=True))
         for tag in SCALAR_TAGS:
             cfgs.append(Config('beta_%s' % tag, self.beta, {'T': 3, 'K': 2, 'tag': tag}))
             cfgs.append(Config('floor_%s' % tag, self.floor, {'tag': tag}))
@@ -103,6 +103,7 @@ class C18(Check):
         c.assume(R(rho) > 0)
         c.notes.update({'N': N, 'W': W, 'kind': 'type', 'tag': tag})
         z_ref = self._zrun(c, N, W, ref, x, u, rho)
+        c.outputs['z'] = z_ref
         ok, z = guarded(c, 'lambda_type_forms_agree', self._zrun, c, N, W, lam, x, u, rho)
         if not ok:
             return
